@@ -2,7 +2,7 @@
 # tools/seeded.sh <property-check-to-run> <patch.diff> [budget-s]
 # Runs a check against a seeded change applied to a scratch copy of /repo (VERIF_REPO);
 # /repo itself is not touched, so background runs on /repo are not disturbed.
-id=$1; patch=$2; budget=${3:-20}
+id=$1; patch=$(readlink -f "$2"); budget=${3:-20}
 scratch=$(mktemp -d /dev/shm/verif-seeded-XXXXXX) || exit 2
 trap 'rm -rf "$scratch"' EXIT INT TERM
 mkdir -p "$scratch/repo" && git -C /repo archive HEAD | tar -x -C "$scratch/repo"
